@@ -14,6 +14,25 @@ TRUSTED_BASE = [
 STREAM_STATELESS = {"merkle": True}
 
 PROPS = {
+    "C01": {
+        "module": "GoatProofs.C01",
+        "theorems": [
+            "Goat.C01.threshold_spec",
+            "Goat.C01.C01_accept_sound",
+            "Goat.C01.C01_no_quorum_rejected",
+            "Goat.C01.newBlockHashes_needs_quorum",
+            "Goat.C01.newPubkey_needs_quorum",
+            "Goat.C01.processWithdrawal_needs_quorum",
+            "Goat.C01.replaceWithdrawal_needs_quorum",
+            "Goat.C01.newConsolidation_needs_quorum",
+            "Goat.C01.F1_unchecked_accepts_marks_beyond_voters",
+        ],
+        "streams": [{"name": "relayer", "quick": 1500, "thorough": 12000, "seeds": 16}],
+        "assumptions": [
+            "BLS FastAggregateVerify is a parameter of the model (aggVerify); in traces the harness states which keys really signed which document and the driver's oracle answers true exactly for that (keys as a multiset, document equal) - so the model predicts the verdict of the real BLS code",
+            "distinctness of the marked voters as *members* needs the group invariant of C16 (voters duplicate-free); positions are distinct by construction",
+        ],
+    },
     "C04": {
         "module": "GoatProofs.C04",
         "theorems": [
